@@ -2,4 +2,11 @@
 # Re-runs every kept seeded change (seeded/<id>/patch.diff) against the check of its property, 4 at a time.
 # Each runs in its own scratch worktree of /repo (PPV_REPO); /repo is not modified.  Prints one line per change.
 cd /verif
-ls seeded | xargs -P ${PAR:-4} -I{} sh -c 'ID=$(echo {} | sed -E "s/^(r2-)?(C[0-9]+)-.*/\2/"); ./ppv/seedtest.sh seeded/{}/patch.diff $ID | sed "s/^/{} /"' | sort
+ls seeded | xargs -P ${PAR:-4} -I{} sh -c 'IDS=$(python3 -c "
+import json,sys
+m=json.load(open(\"seeded/{}/meta.json\"))
+d=m.get(\"detected_by\")
+if isinstance(d, list): print(\" \".join(x[\"check\"] for x in d))
+elif isinstance(d, dict) and d.get(\"check\"): print(d[\"check\"])
+else: print(m[\"property\"])
+"); ./ppv/seedtest.sh seeded/{}/patch.diff $IDS | sed "s/^/{} /"' | sort
